@@ -36,6 +36,12 @@
 //!                                  BinaryTapeParser::parse_slice_into_tape on a recycled tape, write_binary of
 //!                                  every token of the parsed tape, the deserializer *constructors*
 //!                                  with_flavor / from_slice / from_tape / from_reader + their deserialize())
+//!   c05.z <ms> <kind> <args...>   (wave 6, s_c05: size ladders) like c05.w, but every argument that starts with `~` or `%` is
+//!                                  expanded first, so that a 65536-byte input or a 70000-event read schedule is a short,
+//!                                  readable replay line.  `~<item>,<item>,...` -> hex: every item is `<hex>` or `<hex>*<n>` (the
+//!                                  hex string n times), concatenated (`-` when empty).  `%<item>,...` -> a comma separated
+//!                                  list: every item is `<tok>` or `<tok>*<n>` (the token n times) (`-` when empty).
+//!                                  e.g. `c05.z 10000 tr.stream 70000 %1*65536 ~22,61*65536,22`
 use crate::util::*;
 use jomini::binary::de::BinaryDeserializerBuilder;
 use jomini::binary::{BinaryFlavor, BinaryTapeParser, FailedResolveStrategy, Lexer};
@@ -781,6 +787,45 @@ fn tr_ops<R: std::io::Read>(mut rd: jomini::text::TokenReader<R>, ops: &str, n: 
     out.join(" ")
 }
 
+// ------------------------------------------------------------------ wave 6: run-length encoded arguments
+fn rle_items(spec: &str) -> Option<Vec<(&str, usize)>> {
+    let mut v = Vec::new();
+    if spec.is_empty() || spec == "-" {
+        return Some(v);
+    }
+    for item in spec.split(',') {
+        match item.split_once('*') {
+            Some((t, n)) => v.push((t, n.parse().ok()?)),
+            None => v.push((item, 1)),
+        }
+    }
+    Some(v)
+}
+
+fn expand_arg(a: &str) -> Option<String> {
+    if let Some(spec) = a.strip_prefix('~') {
+        let mut s = String::new();
+        for (t, n) in rle_items(spec)? {
+            if t != "-" {
+                for _ in 0..n {
+                    s.push_str(t);
+                }
+            }
+        }
+        Some(if s.is_empty() { "-".to_string() } else { s })
+    } else if let Some(spec) = a.strip_prefix('%') {
+        let mut v: Vec<&str> = Vec::new();
+        for (t, n) in rle_items(spec)? {
+            for _ in 0..n {
+                v.push(t);
+            }
+        }
+        Some(if v.is_empty() { "-".to_string() } else { v.join(",") })
+    } else {
+        Some(a.to_string())
+    }
+}
+
 pub fn dispatch(kind: &str, a: &[&str]) -> Option<String> {
     if !kind.starts_with("c05.") {
         return None;
@@ -789,6 +834,18 @@ pub fn dispatch(kind: &str, a: &[&str]) -> Option<String> {
         ("c05.w", [ms, inner, rest @ ..]) => {
             let _armed = Armed::new(ms.parse().ok()?);
             crate::fams::dispatch(inner, rest).unwrap_or_else(|| "NOKIND".to_string())
+        }
+        ("c05.z", [ms, inner, rest @ ..]) => {
+            let mut ex: Vec<String> = Vec::new();
+            for x in rest.iter() {
+                match expand_arg(x) {
+                    Some(e) => ex.push(e),
+                    None => return Some("BADCASE".to_string()),
+                }
+            }
+            let refs: Vec<&str> = ex.iter().map(|x| x.as_str()).collect();
+            let _armed = Armed::new(ms.parse().ok()?);
+            crate::fams::dispatch(inner, &refs).unwrap_or_else(|| "NOKIND".to_string())
         }
         ("c05.spin", [ms]) => {
             let ms: u64 = ms.parse().ok()?;
